@@ -680,6 +680,8 @@ func genPlanC09(rt *rapid.T) *Plan {
 			g.Kind, g.Chan, g.AbsCh = "discreq", "other", rapid.IntRange(0, 253).Draw(rt, "absch")
 		case 3:
 			g.Kind, g.Chan = "discres", "cur"
+			// whatever status the gateway puts into it: a disconnect response for the current channel ends the tunnel
+			g.Status = rapid.SampledFrom([]int{0, 0, 1, 0x21, 0x24, 0x26, 0x27, 0xff}).Draw(rt, "discres-status")
 		case 4:
 			g.Kind, g.Chan, g.AbsCh = "discres", "other", rapid.IntRange(0, 253).Draw(rt, "absch")
 		case 5, 6:
@@ -1153,6 +1155,21 @@ func oracleC09R(p *Plan, res *Result) (*common.Fail, bool) {
 func genPlanC09R(rt *rapid.T) *Plan {
 	c := Cfg{ResendUs: 20000, TimeoutUs: rapid.SampledFrom([]int{160000, 220000, 300000}).Draw(rt, "timeout"), HeartbeatUs: 3_600_000_000}
 	p := &Plan{Cfg: c, DefConn: okFate(300), DefHb: okFate(200), DefAck: okFate(100), DefDisc: okFate(300)}
+	if rapid.IntRange(0, 3).Draw(rt, "send-right-behind-reconnect") == 0 {
+		// nothing is pending: 1..4 requests are acknowledged, the gateway ends the connection, and a Send arrives within
+		// a few milliseconds of the reconnect - while the client's goroutines may be standing in a slow diagnostic line.
+		// Channel and numbering switch together: that Send is number 0 on the new channel.
+		n := rapid.IntRange(1, 4).Draw(rt, "acked-before")
+		var a []AppStep
+		for i := 0; i < n; i++ {
+			a = append(a, AppStep{AfterUs: rapid.IntRange(0, 600).Draw(rt, "gap0"), Tag: i + 1})
+		}
+		discAt := 8000 + rapid.IntRange(0, 4000).Draw(rt, "disc-at0")
+		p.Senders = [][]AppStep{a, {{AfterUs: discAt + rapid.IntRange(300, 6000).Draw(rt, "behind-reconnect"), Tag: 50}, {AfterUs: 200, Tag: 51}}}
+		p.Gw = []GwStep{{AfterUs: discAt, Kind: "discreq", Chan: "cur"}}
+		p.SlowLogUs = rapid.SampledFrom([]int{0, 2000, 5000, 5000}).Draw(rt, "slow-log")
+		return p
+	}
 	if rapid.IntRange(0, 3).Draw(rt, "same-channel") == 0 {
 		p.DefConn.Ch = -1
 	}
